@@ -47,6 +47,7 @@ type C18Case struct {
 	Debug   bool   `json:"debug"`
 	Shape   string `json:"request_shape"`
 	Field   string `json:"scaled_field"`
+	Via     int    `json:"via,omitempty"` // history through which the middleware reaches its state; see mkMWVia
 	Flavor  string `json:"flavor"` // letter case / padding of the scaled content: lower | mixed | upper | padded
 }
 
@@ -267,7 +268,7 @@ func c18Gen(t *rapid.T) C18Case {
 		return C18Case{CfgKind: pick(t, "hotcfg", []string{"discrete-many-headers", "discrete-many-headers", "discrete", "discrete-credentialed", "star-headers-credentialed", "allow-all"}), Debug: chance(t, "hotdebug", 35),
 			Shape:  pick(t, "hotshape", []string{"preflight-ok", "preflight-ok", "preflight-bad-headers", "preflight-acrpn"}),
 			Field:  pick(t, "hotfield", []string{"acrh-distinct-elements", "acrh-distinct-elements", "acrh-elements", "acrh-lines", "acrh-line-length", "acrh-empty-elements", "acrh-ows", "acrh-junk-length"}),
-			Flavor: pick(t, "hotflavor", c18Flavors)}
+			Flavor: pick(t, "hotflavor", c18Flavors), Via: pick(t, "hotvia", []int{0, 0, 4, 4, 1, 2, 3, 5})}
 	}
 	return C18Case{CfgKind: pick(t, "cfg", c18CfgKinds), Debug: chance(t, "debug", 50), Shape: pick(t, "shape", c18Shapes), Field: pick(t, "field", c18Fields), Flavor: pick(t, "flavor", c18Flavors)}
 }
@@ -277,10 +278,11 @@ func c18Check(c C18Case, rec *Recorder) *Disc {
 	if !ok {
 		return nil
 	}
-	m, err := mkMW(cfg, c.Debug)
+	m, err := mkMWVia(cfg, c.Debug, c.Via)
 	if err != nil {
 		return discf("fixed configuration %s rejected: %v", c.CfgKind, err)
 	}
+	rec.Class(fmt.Sprintf("via-%d", c.Via))
 	h := m.Wrap(noopHandler)
 	w := &allocRec{h: make(http.Header, 8)}
 	scales := c18Scales(c.Field)
@@ -317,7 +319,7 @@ func TestC18(t *testing.T) {
 	Prop[C18Case]{ID: "C18", Gen: c18Gen, Check: c18Check,
 		Rule: "generator: configuration kind in {40 discrete request-header names, allow-all, discrete, discrete+credentialed+PNA, * headers anonymous with/without Authorization, * headers credentialed, no headers configured, no-cors-only PNA} x debug x request shape in {actual allowed/disallowed, actual OPTIONS, non-CORS, preflight succeeding / failing at origin, ACRPN, method, headers} " +
 			"x scaled field in {Origin length, Origin label count, Origin Punycode-label count, Origin value count, ACRM length, ACRH line length (valid names), ACRH junk length, ACRH element count, count of DISTINCT allowed names (to 40) in sorted order, ACRH empty-element count, ACRH line count, OWS run, ACRPN value count, ACRPN length, value count of an unrelated header, ACRM value count, number of distinct unrelated headers (to 20 000), request-target length, method length, Host length} x content flavour in {lower case, Mixed-Case, UPPER CASE, OWS-padded} x 4 scales (1 B..1 MiB or 1..100 000 elements). " +
-			"Oracle: testing.AllocsPerRun (10 runs, GOMAXPROCS 1, reused request, reused and cleared header map, no-op handler, race detector off) <= 16 at every scale (the unchanged library needs 0-2), not larger at the largest scale than at the one before it, and at most 3 larger than at the smallest (a bounded step is tolerated, growth is not). " +
+			"In the quick tier's hot cells the middleware reaches its state through one of six histories documented as equivalent (e.g. Reconfigure(Config())). Oracle: testing.AllocsPerRun (10 runs, GOMAXPROCS 1, reused request, reused and cleared header map, no-op handler, race detector off) <= 16 at every scale (the unchanged library needs 0-2), not larger at the largest scale than at the one before it, and at most 3 larger than at the smallest (a bounded step is tolerated, growth is not). " +
 			"evaluations = measured cells; non-trivial = cell with scale >= 10 KiB / 10 000 elements; distinct by (config kind, debug, shape, field, flavour, scale).",
 		Assumptions: []string{"only the allocation COUNT is judged, as the property says; a change that allocates O(n) bytes in O(1) allocations is not flagged",
 			"the response writer's header map is reused across runs, so allocations of net/http itself are not counted"}}.Run(t)
